@@ -441,7 +441,7 @@ Definition no_oracle : hs_oracle :=
   {| o_parse := 9; o_version_ok := false; o_token := 0; o_key := 0; o_reply := []; o_temp_token := None |}.
 
 Definition err_of_code (z : Z) : err :=
-  match z with 1 => EValue | 2 => EType | 3 => EStruct | 6 => ESig | 7 => EIndex | 10 => EKey
+  match z with 1 => EValue | 2 => EType | 3 => EStruct | 5 => EPacket | 6 => ESig | 7 => EIndex | 10 => EKey
              | 12 => EUnicode | 14 => EAttr | _ => EOther end.
 
 (* ServerClientConnection._recvClientHello / _recvChallengeResponse,
@@ -526,16 +526,29 @@ Definition client_update (c : conn) (now : Z) : conn * list out :=
     (c <| c_status := DISCONNECTED |> <| c_hello_sent := 0 |>, if c_conn_cb c then [OConnCb false] else [])
   else (c, []).
 
-(* the send half of UdpClient.update (the receive half is the Recv event) *)
-Definition client_tick (e : env) (c : conn) (now : Z) : conn * list out :=
+(* what the socket hands to UdpClient.update: nothing, bytes whose header does not parse
+   (PacketHeader.from_bytes raises; update() lets it escape), or a datagram *)
+Inductive rx := RxNone | RxBadHeader (e : err) | RxDgram (d : dgram) (orcs : list hs_oracle).
+
+(* UdpClient.update *)
+Definition client_tick (e : env) (c : conn) (now : Z) (r : rx) : conn * list out :=
   let '(c, o0) := client_update c now in
   if status_eqb (c_status c) DROPPED then (c, o0)
-  else if now - c_last_send c >? c_send_interval c then
-    let '(c, pk) := build_packet e c now in
-    let o1 := match pk with Some p => emit c p | None => [] end in
-    let '(c, o2) := check_timeout false c now in
-    (c, o0 ++ o1 ++ o2)
-  else (c, o0).
+  else
+    let '(c, o1) :=
+      match r with
+      | RxNone => (c, [])
+      | RxBadHeader er => (c, [ORaise er])
+      | RxDgram d orcs => let '(c', o') := recv c now d orcs in
+                          (c', filter (fun x => match x with ORet _ => false | _ => true end) o')
+      end in
+    if raised o1 then (c, o0 ++ o1)
+    else if now - c_last_send c >? c_send_interval c then
+      let '(c, pk) := build_packet e c now in
+      let o2 := match pk with Some p => emit c p | None => [] end in
+      let '(c, o3) := check_timeout false c now in
+      (c, o0 ++ o1 ++ o2 ++ o3)
+    else (c, o0 ++ o1).
 
 (* ServerClientConnection.update *)
 Definition server_tick (e : env) (c : conn) (now : Z) : conn * list out :=
@@ -552,7 +565,7 @@ Definition client_hello (c : conn) (now : Z) (hello : list byte) : conn :=
 (* ---------- events ---------- *)
 Inductive ev :=
   | ESend (p : list byte) (r : retry) (k : icb)
-  | EClientTick (now : Z)
+  | EClientTick (now : Z) (r : rx)
   | EServerTick (now : Z)
   | ERecv (now : Z) (d : dgram) (orcs : list hs_oracle)
   | EDisconnect (k : icb)
@@ -564,7 +577,7 @@ Inductive ev :=
 Definition step (e : env) (c : conn) (x : ev) : conn * list out :=
   match x with
   | ESend p r k => send e c p r k
-  | EClientTick now => client_tick e c now
+  | EClientTick now r => client_tick e c now r
   | EServerTick now => server_tick e c now
   | ERecv now d orcs => recv c now d orcs
   | EDisconnect k => (disconnect c k, [])
